@@ -509,12 +509,7 @@ func (pc *pCtx) p7Lockset(s *pSite, wantRaces, wantOrder bool) {
 							continue
 						}
 						relevant = true
-						common := false
-						for l := range ls[ld] {
-							if ls[ins][l] {
-								common = true // a lock held from the take to the delivery orders concurrent hand-overs
-							}
-						}
+						common := s.handedOver(fn, ls, ls[ld], ls[ins]) // a lock (chain) held from the take to the delivery orders concurrent hand-overs
 						for l := range ls[ld] {
 							if !common && !ls[ins][l] {
 								ok2 = false
@@ -527,12 +522,7 @@ func (pc *pCtx) p7Lockset(s *pSite, wantRaces, wantOrder bool) {
 							continue
 						}
 						relevant = true
-						common := false
-						for l := range ls[ld] {
-							if ls[ins][l] {
-								common = true
-							}
-						}
+						common := s.handedOver(fn, ls, ls[ld], ls[ins])
 						if !common {
 							ok2 = false
 							note = fmt.Sprintf("%s reads %s atomically (%s) and delivers what it read with no lock held since the reading (%s); the function runs in %d concurrent contexts, so a newer reading can reach the downstream first", funcKey(fn), cellName(atomicCell[ld]), pc.pos(ld.Pos()), pc.pos(ins.Pos()), len(inCtxs[fn]))
@@ -712,6 +702,35 @@ func (pc *pCtx) p7Lockset(s *pSite, wantRaces, wantOrder bool) {
 }
 
 
+// handedOver: the take under the locks `atTake` is ordered with a later instruction by a lock chain: some lock held at
+// `at` was acquired (in the same function) while a lock of the take was still held - Delay's "lock the delivery mutex,
+// then release the queue mutex".
+func (s *pSite) handedOver(fn *ssa.Function, ls map[ssa.Instruction]map[ssa.Value]bool, atTake, atUse map[ssa.Value]bool) bool {
+	for l := range atTake {
+		if atUse[l] {
+			return true
+		}
+	}
+	for _, b := range fn.Blocks {
+		for _, ins := range b.Instrs {
+			call, ok := ins.(*ssa.Call)
+			if !ok {
+				continue
+			}
+			l2, op := s.lockOp(call.Common())
+			if l2 == nil || op != "lock" || !atUse[l2] {
+				continue
+			}
+			for l := range atTake {
+				if ls[ins][l] {
+					return true
+				}
+			}
+		}
+	}
+	return false
+}
+
 // p11bHandles: an observer-like object (a window or group subject) taken from a shared cell under a lock and used after
 // the lock was released, while another context replaces the content of that cell: the other context may have completed
 // or replaced the object in between, so the value sent to it is lost or a freshly delivered object is never completed.
@@ -786,12 +805,7 @@ func (pc *pCtx) p11bHandles(s *pSite, props []string, inCtxs map[*ssa.Function]m
 						continue
 					}
 					relevant = true
-					common := false
-					for l := range ls[ld] {
-						if ls[ins][l] {
-							common = true
-						}
-					}
+					common := s.handedOver(fn, ls, ls[ld], ls[ins])
 					if !common {
 						ok2 = false
 						note = fmt.Sprintf("%s takes %s under a lock (%s) and calls %s on it after the lock is released (%s); another context replaces %s, so the object may have been completed or replaced in between", funcKey(fn), cellName(al), pc.pos(ld.Pos()), m, pc.pos(ins.Pos()), cellName(al))
